@@ -133,6 +133,10 @@ struct Inner {
     freelist: RwLock<Vec<Page>>,
     // The local freelist for the current thread used to avoid contention on the global freelist.
     tls_freelist: ThreadLocal<RefCell<Vec<Page>>>,
+    // When set, pages come from this source and are never returned to the pool (verification
+    // harnesses only: no mmap, no thread-local state).
+    #[cfg(feature = "verif-hooks")]
+    verif_source: Option<fn() -> *mut u8>,
 }
 
 impl PagePool {
@@ -147,6 +151,24 @@ impl PagePool {
                 n_regions: AtomicU32::new(0),
                 freelist,
                 tls_freelist: ThreadLocal::new(),
+                #[cfg(feature = "verif-hooks")]
+                verif_source: None,
+            }),
+        }
+    }
+
+    /// A pool whose pages are produced by `source` (4096 bytes, 4096-aligned) and leaked on
+    /// deallocation.
+    #[cfg(feature = "verif-hooks")]
+    #[doc(hidden)]
+    pub fn verif_with_source(source: fn() -> *mut u8) -> Self {
+        Self {
+            inner: Arc::new(Inner {
+                regions: [const { AtomicPtr::new(std::ptr::null_mut()) }; REGION_COUNT],
+                n_regions: AtomicU32::new(0),
+                freelist: RwLock::new(Vec::new()),
+                tls_freelist: ThreadLocal::new(),
+                verif_source: Some(source),
             }),
         }
     }
@@ -164,6 +186,12 @@ impl PagePool {
     ///
     /// The contents of the page are undefined.
     pub fn alloc(&self) -> Page {
+        #[cfg(feature = "verif-hooks")]
+        if let Some(source) = self.inner.verif_source {
+            return Page(source());
+        }
+        #[cfg(feature = "verif-detached-pool")]
+        unreachable!("detached page pool without a page source");
         // fast path: try to serve request from the thread-local freelist.
         let mut tls_freelist = self.tls_freelist();
         if let Some(page) = tls_freelist.pop() {
@@ -187,6 +215,12 @@ impl PagePool {
 
     /// Deallocates a [`Page`].
     pub fn dealloc(&self, page: Page) {
+        #[cfg(feature = "verif-hooks")]
+        if self.inner.verif_source.is_some() {
+            return;
+        }
+        #[cfg(feature = "verif-detached-pool")]
+        unreachable!("detached page pool without a page source");
         // fast path: try to place page in thread-local freelist.
         let mut tls_freelist = self.tls_freelist();
         tls_freelist.push(page);
